@@ -33,10 +33,10 @@ type Rec struct {
 	Conn int    `json:"c"`
 	Seq  int    `json:"s"`
 	App  string `json:"app"`
-	Sev  int    `json:"sev"`  // syslog severity 0..7
-	Host string `json:"host"` // metric key
-	Kind string `json:"kind"` // plain | drop | email | esc | badtime | multiline | garbage | malformed
-	Pad  int    `json:"pad"`  // extra message bytes
+	Sev  int    `json:"sev"`           // syslog severity 0..7
+	Host string `json:"host"`          // metric key
+	Kind string `json:"kind"`          // plain | drop | email | esc | badtime | multiline | garbage | malformed
+	Pad  int    `json:"pad"`           // extra message bytes
 	Src  string `json:"src,omitempty"` // value of the source field (default src<seq%3>)
 }
 
@@ -61,7 +61,7 @@ type ConnSpec struct {
 // GenSpec is one generation of the agent (start ... graceful stop).
 type GenSpec struct {
 	Conns       []ConnSpec        `json:"conns"`
-	UpScript    [][]upstream.Step `json:"up_script"` // per output
+	UpScript    [][]upstream.Step `json:"up_script"`  // per output
 	WaitAcked   bool              `json:"wait_acked"` // wait (bounded) until everything expected so far is acknowledged
 	StopDelayMs int               `json:"stop_delay_ms"`
 	Sighup      []int             `json:"sighup_ms"` // C17 (unused elsewhere)
@@ -69,21 +69,22 @@ type GenSpec struct {
 
 // Scenario is a whole history.
 type Scenario struct {
-	ID          string    `json:"id"`
-	Family      string    `json:"family"`
-	Outputs     int       `json:"outputs"`
-	Mode        string    `json:"mode"` // Forward | PackedForward | CompressedPackedForward
-	MemWindow   int       `json:"mem_window"`
-	QueueCap    int       `json:"queue_cap"`
-	MaxBuf      string    `json:"max_buf"`
-	ChunkBytes  int       `json:"chunk_bytes"`
-	BatchLogs   int       `json:"batch_logs"` // IntermediateBufferMaxNumLogs
-	MaxDurMs    int       `json:"max_dur_ms"`
-	MaxPending  int       `json:"max_pending"`
-	Procs       int       `json:"procs"`
-	Gens        []GenSpec `json:"gens"`
-	MetricKeys  []string  `json:"metric_keys"`
-	ExtraConfig string    `json:"-"`
+	ID           string    `json:"id"`
+	Family       string    `json:"family"`
+	Outputs      int       `json:"outputs"`
+	Mode         string    `json:"mode"` // Forward | PackedForward | CompressedPackedForward
+	MemWindow    int       `json:"mem_window"`
+	QueueCap     int       `json:"queue_cap"`
+	MaxBuf       string    `json:"max_buf"`
+	ChunkBytes   int       `json:"chunk_bytes"`
+	BatchLogs    int       `json:"batch_logs"` // IntermediateBufferMaxNumLogs
+	MaxDurMs     int       `json:"max_dur_ms"`
+	MaxPending   int       `json:"max_pending"`
+	Procs        int       `json:"procs"`
+	Gens         []GenSpec `json:"gens"`
+	MetricKeys   []string  `json:"metric_keys"`
+	InterFlushMs int       `json:"inter_flush_ms,omitempty"` // overrides the scaled IntermediateFlushInterval (0 = default)
+	ExtraConfig  string    `json:"-"`
 }
 
 // ---------- observation ----------
@@ -571,7 +572,7 @@ func scanDisk(root string, outputs int, gen int) (out []Delivered, files map[str
 type Hooks struct {
 	Reloadable bool
 	Timeouts   *Timeouts
-	OnAgent    func(gen int, a *Agent)                 // after start
+	OnAgent    func(gen int, a *Agent)                         // after start
 	BeforeStop func(gen int, a *Agent, ups []*upstream.Server) // right before the stop request
 	Watchdog   time.Duration
 	OnStuck    func(gen int, where string)
@@ -582,6 +583,9 @@ func Run(sc Scenario, work string, hk Hooks) (*Obs, error) {
 	t := DefaultTimeouts
 	if hk.Timeouts != nil {
 		t = *hk.Timeouts
+	}
+	if sc.InterFlushMs > 0 {
+		t.InterFlush = time.Duration(sc.InterFlushMs) * time.Millisecond
 	}
 	bound := SetDefs(sc, t)
 	root := filepath.Join(work, "sc-"+sc.ID)
